@@ -481,26 +481,39 @@ def run(rep: Report, prog: Program, tier: str) -> None:
     # ================================================================ C02-REINIT
     rep.rule("C02-REINIT", "the receive state is (re)initialised from an INIT / INIT-ACK only under an association-state guard", min_instances=2)
     rc = meth("_receive_chunk")
-    pmc = parents_of(rc.node)
-    inits = [n for n in walk_no_nested(rc.node) if isinstance(n, ast.Assign) and unparse(n.targets[0]) == "self._last_received_tsn" and "initial_tsn" in unparse(n.value)]
-    if len(inits) < 2:
-        raise AnalysisError("_receive_chunk: initialisation of _last_received_tsn from INIT / INIT-ACK not found")
-    for n in inits:
-        cur: Any = n
+
+    def reinit_sites(fi_):
+        return [n for n in walk_no_nested(fi_.node) if isinstance(n, ast.Assign) and unparse(n.targets[0]) == "self._last_received_tsn" and "initial_tsn" in unparse(n.value)]
+
+    def state_guard(node: ast.AST, fi_) -> Optional[str]:
+        pm_ = parents_of(fi_.node)
+        cur: Any = node
         guard = None
-        while id(cur) in pmc:
-            par = pmc[id(cur)]
+        while id(cur) in pm_:
+            par = pm_[id(cur)]
             if isinstance(par, ast.If) and any(cur is b for b in par.body) and "self._association_state ==" in unparse(par.test):
                 guard = unparse(par.test)
             cur = par
+        return guard
+    # the initialisation may sit in _receive_chunk itself or in a helper it calls with the chunk: then the guard must hold at the call
+    sites = [(rc, n, n) for n in reinit_sites(rc)]
+    for m_ in ci.methods.values():
+        if m_ is rc or not reinit_sites(m_):
+            continue
+        calls_ = [c for c in walk_no_nested(rc.node) if isinstance(c, ast.Call) and unparse(c.func) == f"self.{m_.name}"]
+        for c in calls_:
+            for n in reinit_sites(m_):
+                sites.append((rc, c, n) if state_guard(n, m_) is None else (m_, n, n))
+    if len(sites) < 2:
+        raise AnalysisError("_receive_chunk: initialisation of _last_received_tsn from INIT / INIT-ACK not found")
+    for fn_, where, n in sites:
+        guard = state_guard(where, fn_)
         if guard:
-            rep.ok("C02-REINIT", f"_receive_chunk: {unparse(n)[:70]}", sample="only when " + guard[:90])
+            rep.ok("C02-REINIT", f"{fn_.name}: {unparse(where)[:70]}", sample="only when " + guard[:90])
         else:
-            rep.fail(mk_finding(prog, PROP, "C02-REINIT", rc, n, "the cumulative TSN is reset from the peer's initial TSN whatever the association state: a duplicated INIT datagram "
+            rep.fail(mk_finding(prog, PROP, "C02-REINIT", fn_, where, "the cumulative TSN is reset from the peer's initial TSN whatever the association state: a duplicated INIT datagram "
                                 "arriving later makes this side acknowledge from the start again, the peer discards those SACKs as stale and its data stays outstanding for ever",
                                 construct="unguarded receive-state reset"))
-    import_rules(rep, prog, tier, PROP, "C02-ABANDON", "C06", ["C06-WHOLE", "C06-RECV", "C06-ITER"],
-                 "abandoning a partially reliable message never abandons, loses or blocks chunks of other messages (rules C06-WHOLE / C06-RECV / C06-ITER)", 100)
 
     # ================================================================ C02-HANDSHAKE
     # handshake requests are retransmitted when their answer is lost: they must be answered whatever state this side is already in
@@ -535,3 +548,7 @@ def run(rep: Report, prog: Program, tier: str) -> None:
                                 f"finishes the handshake while this side reports itself connected", construct=f"{req} answered in every state"))
         else:
             rep.ok("C02-HANDSHAKE", f"_receive_chunk: {req} -> {resp} whatever the association state", sample=unparse(b.test)[:80])
+
+    # ================================================================ C02-ABANDON (rules of C06)
+    import_rules(rep, prog, tier, PROP, "C02-ABANDON", "C06", ["C06-WHOLE", "C06-RECV", "C06-ITER"],
+                 "abandoning a partially reliable message never abandons, loses or blocks chunks of other messages (rules C06-WHOLE / C06-RECV / C06-ITER)", 100)
